@@ -65,6 +65,9 @@ def body(decider, strategy, jobs, nbits, script, mutset, checker_fn,
         try:
             final = SC.run_strategy(env, strategy)
         except SC.Runaway:
+            # cut off: the chain relation must hold for the writes so far
+            if checker_fn is SC.check_chain:
+                return SC.check_chain(env, None) or 'runaway'
             return 'runaway'
         return checker_fn(env, final)
     finally:
@@ -113,6 +116,7 @@ CONFIGS = [
     ('ddmin', 'a', 'core'), ('ddmin', 'b', 'mix'), ('ddmin', 'c', 'erase'),
     ('ddmin', 'd', 'mix'), ('hierarchical', 'b', 'elim'),
     ('ddmin', 'b', 'elim'), ('ddmin', 'k', 'consts'),
+    ('hierarchical', 'e', 'consts'),
 ]
 
 
@@ -158,7 +162,7 @@ def partitions(tier):
                                              'oracle': 'hash-classes',
                                              'S': b['S'],
                                              'pinned_first_bits': list(pin)}})
-                if sc == 'k' and j > 1 and (not pin or sum(pin) == 0):
+                if ms == 'consts' and (not pin or sum(pin) == 0):
                     parts.append({'name': (nm if not pin else nm[:nm.rindex('_p')]) + '_shape', 'kind': 'choices',
                                   'run': make_run(st, j, sc, ms, tier, pin=(),
                                                   oracle='shape'),
